@@ -206,6 +206,35 @@ Theorem C09_calendar : forall t, 1000000000 <= t < 2147483648 ->
 Proof. exact civil_correct. Qed.
 Print Assumptions C09_calendar.
 
+(* the recorded date over the life of one process. The date of a stamp time is the month/day of its local day
+   (t + 8 h) / 86400 and of nothing else: two times of one local day (whatever their UTC days) give the same string, two
+   times of consecutive local days never do — in particular the second that begins a local day (16:00:00 UTC) changes
+   it —, it is always 5 characters and the 6-byte field is that string and a NUL *)
+Theorem C09_date_is_local_day : forall t t', 1000000000 <= t < 2147483648 -> 1000000000 <= t' < 2147483648 ->
+  ((t + TZ_OFFSET) / 86400 = (t' + TZ_OFFSET) / 86400 -> cdatemd t = cdatemd t') /\
+  ((t' + TZ_OFFSET) / 86400 = (t + TZ_OFFSET) / 86400 + 1 -> cdatemd t' <> cdatemd t) /\
+  ((t + 1 + TZ_OFFSET) mod 86400 = 0 -> t' = t + 1 -> cdatemd t' <> cdatemd t) /\
+  length (cdatemd t) = 5%nat /\ date_field_of t = cdatemd t ++ [0].
+Proof. exact date_is_local_day. Qed.
+Print Assumptions C09_date_is_local_day.
+
+(* ... and over EVERY history of posts of one process — whatever the clock readings of the successive posts are: the same
+   day, across local or UTC midnights, month ends, new year, years apart, or stepped back — the date field of every
+   entry is date_field_of the time in that entry's own name: nothing is carried from one stamp to the next. (The
+   clock readings are observed inputs, each post has its own: q_nowA / q_nowH / q_nowB.) stamp_dates is the same
+   statement for Cdatemd asked directly (driver op 5 / model op 4): the k-th answer is a function of the k-th time *)
+Theorem C09_sequence_dates : forall qs st st' os, Forall in_range qs -> post_seq st qs = Ok (st', os) ->
+  Forall (fun o => exists t2 r2, 1000000000 <= t2 < 2147483648 /\ 0 <= r2 < 4096 /\ o_fn o = mk_name 77 t2 r2 /\
+    firstn 6 (skipn 48 (o_entry o)) = date_field_of t2) os.
+Proof. exact sequence_dates. Qed.
+Print Assumptions C09_sequence_dates.
+
+Theorem C09_dates_history_free : forall pre t post_,
+  length (stamp_dates (pre ++ t :: post_)) = length (pre ++ t :: post_) /\
+    nth (length pre) (stamp_dates (pre ++ t :: post_)) [] = date_field_of t.
+Proof. exact stamp_dates_history_free. Qed.
+Print Assumptions C09_dates_history_free.
+
 (* the date functions of the model assume UTC+8: the configured time zone is still Asia/Taipei *)
 Theorem C09_time_zone : TIME_LOCATION = [65; 115; 105; 97; 47; 84; 97; 105; 112; 101; 105].
 Proof. exact tz_is_taipei. Qed.
